@@ -429,3 +429,19 @@ def p_ext_chain(I, args, kwargs, node):
 
 
 PRIMS.update({'ext_last_ok': p_ext_last_ok, 'ext_ok_args': p_ext_ok_args, 'ext_chain': p_ext_chain})
+
+
+# ---------------------------------------------------------------------------------------
+# per-iteration (`step`) contracts of abstracted loops
+# ---------------------------------------------------------------------------------------
+def p_iter_item(I, args, kwargs, node):
+    """iter_item(j): the j-th component of the loop target in the iteration under its step contract"""
+    return I.ghost['iter_items'][_m.concretise(args[0])]
+
+
+def p_iter_old(I, args, kwargs, node):
+    """iter_old('name'): the value a local variable had when that iteration started"""
+    return I.ghost['iter_env0'][_m.concretise(args[0])]
+
+
+PRIMS.update({'iter_item': p_iter_item, 'iter_old': p_iter_old})
